@@ -17,6 +17,18 @@ Record fixes := { fx_mro : bool; fx_pop : bool; fx_meth : bool; fx_crash : bool 
 Definition no_fixes : fixes := {| fx_mro := false; fx_pop := false; fx_meth := false; fx_crash := false |}.
 Definition all_fixes : fixes := {| fx_mro := true; fx_pop := true; fx_meth := true; fx_crash := true |}.
 
+(* ---- guard for the resolver repaired by fixes/C13-inherited-init-positional.patch (fx_mro) ----------
+   The repaired resolver and the interpreter start from the same frame: the __init__ found through the MRO
+   of the class, at ITS position in that MRO.  The class is inside the proved fragment when that frame is
+   (Model/KwargsGuard.klass, unchanged).  For a class with its own __init__ this is klass_top; a class that
+   INHERITS __init__ (position > 0, excluded by klass_top through class_agree) is now inside as well. *)
+Definition klass_top_inh (fuel : nat) (P : prog) (c : nat) : N :=
+  match class_frame Interp fuel P c with
+  | Err _ => 9%N
+  | Ok None => 0%N
+  | Ok (Some fr) => klass fuel P fr
+  end.
+
 Section Fx.
 Variable fx : fixes.
 
